@@ -19,6 +19,7 @@ EXPLANATION = (
     'reserves the pipeline\'s wait context in both constructors, releases it in the destructor after finalising a pending item, '
     'and execute() returns this or finalises.  The global in-order property across all stage delays and the ring rehash '
     'arithmetic of grow() are NOT decided.')
+EXPLANATION += ' Added after the seeded-change rounds: ' + "D5: a parked item is stored into the token ring only when token - low_token < array_size is known (branch edge, or grow(m) with m >= distance + 1; grow's post-condition array_size >= m is checked); D6: an item's token is assigned only while it has none (my_token_ready false / brand new item)."
 ASSUMPTIONS = ['spin_mutex::scoped_lock RAII model', 'the serial input stage is invoked by one task at a time (token protocol D3)']
 ND = ['global in-order property of serial_in_order stages across all delays', 'ring rehash arithmetic in grow()',
       '"returns only after the last item left" beyond D4']
